@@ -190,6 +190,10 @@ class Ellipse:
             _y0 = image.shape[0] / 2
             self._geometry = EllipseGeometry(_x0, _y0, 10.0, eps=0.2,
                                              pa=np.pi / 2)
+        # the fix flags and growth mode of the input geometry; fit_image
+        # falls back to them when they are not overridden in a call
+        self._geometry_fix = np.array(self._geometry.fix, dtype=bool)
+        self._geometry_linear_growth = self._geometry.linear_growth
         self.set_threshold(threshold)
 
     def set_threshold(self, threshold):
@@ -396,15 +400,18 @@ class Ellipse:
         if isinstance(linear, bool):
             self._geometry.linear_growth = linear
         else:
-            linear = self._geometry.linear_growth
+            linear = self._geometry_linear_growth
+            self._geometry.linear_growth = linear
         if fix_center and fix_pa and fix_eps:
             warnings.warn(': Everything is fixed. Fit not possible.',
                           AstropyUserWarning)
             return IsophoteList([])
         if fix_center or fix_pa or fix_eps:
-            # Note that this overrides the geometry instance for good.
             self._geometry.fix = np.array([fix_center, fix_center, fix_pa,
                                            fix_eps])
+        else:
+            # do not carry over the flags set by an earlier call
+            self._geometry.fix = self._geometry_fix.copy()
 
         # first, go from initial sma outwards until
         # hitting one of several stopping criteria.
